@@ -7,6 +7,7 @@ import (
 	"fmt"
 	"io"
 	"mime/multipart"
+	"net/http"
 	"net/url"
 	"sort"
 	"strings"
@@ -232,7 +233,7 @@ func c01Run(c *engine.Ctx, cs c01Case) (field, msg string) {
 	evals := int64(0)
 	defer func() { c.Add(0, 0, 0, evals) }()
 	if cs.start == "existing" {
-		r := w.Do(drv.Req{Method: "PUT", Path: "/aaa/" + cs.key, Body: []byte("old-different-body"), Header: drv.H("x-amz-meta-old", "o", "Content-Type", "application/old")})
+		r := w.Do(drv.Req{Method: "PUT", Path: "/aaa/" + cs.key, Body: []byte("old-different-body"), Header: drv.H("x-amz-meta-old", "o", "Content-Type", "application/old", "x-amz-meta-a", "old-a", "x-amz-meta-b", "old-b", "Content-Encoding", "old-enc", "Content-Disposition", "old-disp")})
 		evals++
 		if r.Status != 200 {
 			return "setup", "pre-existing object: " + r.Short()
@@ -321,7 +322,8 @@ func c01Run(c *engine.Ctx, cs c01Case) (field, msg string) {
 		if cs.path == "backend-api" {
 			meta = map[string]string{}
 			for k, v := range cs.meta {
-				meta[k] = v
+				// header names in their canonical form, as the front end hands them to a backend
+				meta[http.CanonicalHeaderKey(k)] = v
 			}
 		}
 		var perr error
@@ -353,8 +355,8 @@ func c01Run(c *engine.Ctx, cs c01Case) (field, msg string) {
 			return "api-get", fmt.Sprintf("Backend.GetObject: %d bytes size=%d hash=%x", len(got), obj.Size, obj.Hash)
 		}
 		for k, v := range cs.meta {
-			if obj.Metadata[k] != v {
-				return "api-meta", fmt.Sprintf("Backend.GetObject metadata %s=%q want %q", k, obj.Metadata[k], v)
+			if obj.Metadata[http.CanonicalHeaderKey(k)] != v {
+				return "api-meta", fmt.Sprintf("Backend.GetObject metadata %s=%q want %q", k, obj.Metadata[http.CanonicalHeaderKey(k)], v)
 			}
 		}
 		ho, herr := w.Backend.HeadObject("aaa", cs.key)
